@@ -6,6 +6,7 @@
 -/
 import Rtp.Proofs.AV1Pay
 import Rtp.Proofs.AV1PaySim
+import Rtp.Proofs.AV1PayIdx
 namespace Rtp.Props.C08.AV1
 open Rtp Rtp.Model Rtp.Model.AV1
 
@@ -71,8 +72,9 @@ theorem c08_av1 (calls : List (UInt16 × Option Bytes)) :
   | nil => simp [c08Obs, Pred.C08.histOk]
   | cons c cs ih =>
     obtain ⟨m, i⟩ := c
-    simp only [c08Obs, List.map_cons, Pred.C08.histOk, Bool.and_eq_true, AV1B.payloadB_eq]
-    refine ⟨?_, by simpa [c08Obs, AV1B.payloadB_eq] using ih⟩
+    simp only [c08Obs, payObs, AV1B.payloadC_eq, List.map_cons, Pred.C08.histOk, Bool.and_eq_true,
+      AV1B.payloadB_eq]
+    refine ⟨?_, by simpa [c08Obs, payObs, AV1B.payloadC_eq, AV1B.payloadB_eq] using ih⟩
     have hb := c08_av1_bound m (i.getD [])
     simp only [Pred.C08.callOk, Pred.PayObs.ofFrags, Pred.PayObs.owned, Bool.false_or, Bool.not_false,
       Bool.and_self, Bool.true_and, Bool.and_eq_true, List.all_eq_true, decide_eq_true_eq,
@@ -82,6 +84,14 @@ theorem c08_av1 (calls : List (UInt16 × Option Bytes)) :
     cases f with
     | nil => exact absurd rfl this
     | cons a b => rfl
+
+/-- the byte-level transcription of Payload with every index and slice expression CHECKED
+    (`payload[offset:]`, `payload[offset:offset+obuSize]`, `obuPayload[:toWrite]`,
+    `payloads[currentPayload][0]`, `payloads[currentPayload-1][0]`, …) never fails a check, for every
+    MTU and every input, and computes the payloads of the model the theorems are about -/
+theorem c08_av1_slices_in_range (mtu : UInt16) (data : Bytes) :
+    AV1B.payloadC mtu data = some (AV1.payload mtu data) := by
+  rw [AV1B.payloadC_eq, AV1B.payloadB_eq]
 
 /-- non-vacuity: two OBUs at MTU 5 — the second is fragmented; every payload is within 5 bytes -/
 example : AV1.payload 5 [0x32, 0x01, 0xAA, 0x30, 0x01, 0x02, 0x03, 0x04, 0x05] =
